@@ -48,21 +48,20 @@ Definition make (h : heap) (c : nat) : heap * slice :=
 
 Definition begin_marker : list N := [123%N].   (* enc.AppendBeginMarker: '{' *)
 
-(* func (l Logger) With() Context - on the copy l of the receiver; base = the receiver's context (None: nil slice) *)
-Definition logger_with (grow : nat -> nat -> nat) (h : heap) (base : option slice) : heap * slice * nat :=
+(* func (l Logger) With() Context - on the copy l of the receiver; base = the receiver's context (None: nil slice).
+   Returns the arrays it allocated or wrote. *)
+Definition logger_with (grow : nat -> nat -> nat) (h : heap) (base : option slice) : heap * slice * list nat :=
   let '(h1, s1) := make h 500 in
-  match base with
-  | Some b => append grow h1 s1 (view h b)
-  | None => append grow h1 s1 begin_marker
-  end.
+  let '(h2, s2, a) := append grow h1 s1 (match base with Some b => view h b | None => begin_marker end) in
+  (h2, s2, [length h; a]).
 
 (* func (l *Logger) UpdateContext(update): the two guards, then the appends of update, then the store
    l.context = c.l.context.  One chunk = one append of the update function. *)
 Definition update_context (grow : nat -> nat -> nat) (h : heap) (s : slice) (chunk : list N) : heap * slice * list nat :=
-  let '(h1, s1) := if cap s =? 0 then make h 500 else (h, s) in
+  let '(h1, s1, w1) := if cap s =? 0 then let '(hh, ss) := make h 500 in (hh, ss, [length h]) else (h, s, []) in
   let '(h2, s2, w2) := if len s1 =? 0 then let '(hh, ss, a) := append grow h1 s1 begin_marker in (hh, ss, [a]) else (h1, s1, []) in
   let '(h3, s3, a3) := append grow h2 s2 chunk in
-  (h3, s3, w2 ++ [a3]).
+  (h3, s3, w1 ++ w2 ++ [a3]).
 
 (* ---- requests and schedules ---- *)
 Record request := {
@@ -74,7 +73,7 @@ Record request := {
 Record state := {
   st_heap : heap;
   st_reqs : list request;
-  st_log : list (nat * nat)       (* ghost: (request, array written or allocated), newest first *)
+  st_log : list (nat * nat)       (* ghost: (request, array written or allocated) *)
 }.
 
 Definition new_request (chunks : list (list N)) : request :=
@@ -92,10 +91,10 @@ Definition req_step (copy : bool) (grow : nat -> nat -> nat) (base : option slic
       match rq_logger r with
       | None =>
           if copy then
-            let '(h1, l1, a) := logger_with grow (st_heap s) base in
+            let '(h1, l1, ws) := logger_with grow (st_heap s) base in
             {| st_heap := h1;
                st_reqs := upd (st_reqs s) i {| rq_logger := Some l1; rq_todo := rq_todo r; rq_done := rq_done r |};
-               st_log := (i, a) :: st_log s |}
+               st_log := map (fun a => (i, a)) ws ++ st_log s |}
           else
             match base with
             | Some b => {| st_heap := st_heap s;
@@ -110,7 +109,7 @@ Definition req_step (copy : bool) (grow : nat -> nat -> nat) (base : option slic
               let '(h1, l1, ws) := update_context grow (st_heap s) l c in
               {| st_heap := h1;
                  st_reqs := upd (st_reqs s) i {| rq_logger := Some l1; rq_todo := rest; rq_done := rq_done r ++ [c] |};
-                 st_log := map (fun a => (i, a)) (rev ws) ++ st_log s |}
+                 st_log := map (fun a => (i, a)) ws ++ st_log s |}
           end
       end
   end.
